@@ -364,6 +364,9 @@ def run(cfg, segs=None, perm_seed=None, perm_kinds=None, budget=None, full=True,
                         if i == 0:
                             ret = sim.start(runtime=s)
                             end["calls"].append({"call": "start", "arg": s, "raised": ""})
+                        elif s == "past":
+                            sim.resume(until=env.now + 3)
+                            end["calls"].append({"call": "resume", "arg": int(env.now), "raised": ""})
                         elif s == "end":
                             while not sim.is_finished():
                                 sim.resume(until=env.now + 1)
